@@ -120,6 +120,10 @@ Step(g) ==
                    [] o.k = "RUL" -> [lkR EXCEPT ![o.m][g] = @ - 1]
                    [] OTHER       -> lkR
        /\ flags' = IF o.k = "INV" /\ o.m # "" THEN flags \cup {o.m} ELSE flags
+       \* conformance input: every transition, as (state, goroutine, successor state)
+       /\ EmitStates => PrintT("EDGE " \o ToJson([g |-> g,
+                 from |-> [calls |-> calls, w |-> lkW, a |-> lkA, r |-> lkR, pos |-> pos, flags |-> flags],
+                 to   |-> [calls |-> calls', w |-> lkW', a |-> lkA', r |-> lkR', pos |-> pos', flags |-> flags']]))
 
 AllDone == \A g \in G : Done(g)
 Next == (\E g \in G : Step(g)) \/ (AllDone /\ UNCHANGED vars)
